@@ -1635,7 +1635,11 @@ async fn run_payout_scenario(ctx: &mut Ctx, rng: &mut Rng, keys: &Keys, cases: &
             let hops = if forced && bi < 2 { rng.range(2, 3) as usize } else { rng.below(4) as usize };
             let mut route: Vec<usize> = vec![];
             let mut last = sender;
-            for k in 0..hops {
+            if forced && bi < 2 {
+                // block N-2 is routed through R1 = key#4 only, block N-1 through R2 = key#5 (and key#6)
+                route = if bi == 0 { vec![3, creator] } else if rng.chance(1, 2) { vec![4, creator] } else { vec![4, 5] };
+            }
+            for k in 0..(if forced && bi < 2 { 0 } else { hops }) {
                 let mut nx = if k + 1 == hops && rng.chance(3, 4) { creator } else { rng.range(2, 5) as usize };
                 if nx == last {
                     nx = if nx == 5 { 3 } else { nx + 1 };
@@ -1761,6 +1765,43 @@ async fn run_payout_scenario(ctx: &mut Ctx, rng: &mut Rng, keys: &Keys, cases: &
             }
             if o.2 == 1 && o.0 != keys.id(&gt_public_key) {
                 ctx.summary.oracle_failure(case, &format!("miner output goes to key#{} not the golden-ticket solver", o.0), &desc);
+            }
+        }
+        // the router share for the fees of block N-2 (paid when block N-1 had no ticket) must go to a
+        // router of block N-2 — or to the graveyard — never to somebody who only routed for block N-1
+        if paid_blocks == 2 {
+            let ppb = pp.unwrap();
+            let router_outs: Vec<&(u64, u64, u64)> = outputs.iter().filter(|o| o.2 == 2).collect();
+            let second: Option<&(u64, u64, u64)> = if router_outs.len() == 2 {
+                Some(router_outs[1])
+            } else if router_outs.len() == 1 && prev.total_fees == 0 {
+                Some(router_outs[0])
+            } else {
+                None
+            };
+            if let Some(o) = second {
+                let mut elig_pp: BTreeSet<u64> = BTreeSet::new();
+                eligible_of(ppb, keys, &mut elig_pp);
+                let drawn = catch_unwind(AssertUnwindSafe(|| ppb.find_winning_router(r2))).map(|k| keys.id(&k)).unwrap_or(999);
+                ctx.summary.count("payout.router2_checked", if elig_pp.contains(&o.0) { "on-path-of-N-2" } else { "NOT-on-path-of-N-2" });
+                if !elig_pp.contains(&o.0) {
+                    let mut elig_prev: BTreeSet<u64> = BTreeSet::new();
+                    eligible_of(prev, keys, &mut elig_prev);
+                    ctx.summary.oracle_failure(
+                        case,
+                        &format!(
+                            "the router share {} for the fees of block {} (N-2) goes to key#{} which is on no routing path of that block (its routers / path-less senders: {:?}; routers of block {} (N-1): {:?}; block N-2's own lottery draws key#{})",
+                            o.1, ppb.id, o.0, elig_pp, prev.id, elig_prev, drawn
+                        ),
+                        &desc,
+                    );
+                } else if o.0 != drawn {
+                    ctx.summary.oracle_failure(
+                        case,
+                        &format!("the router share {} for the fees of block {} (N-2) goes to key#{} but that block's lottery (find_winning_router with the third hash of the ticket's random) draws key#{}", o.1, ppb.id, o.0, drawn),
+                        &desc,
+                    );
+                }
             }
         }
         if total_out > bound {
@@ -2120,6 +2161,7 @@ async fn part3(ctx: &mut Ctx, rng: &mut Rng) {
     require_min(ctx, offset, "payout.miner_paid_with_relay", "yes", 15);
     require_min(ctx, offset, "payout.paid_blocks", "2", 20);
     require_min(ctx, offset, "payout.router2_paid", "uncapped", 5);
+    require_min(ctx, offset, "payout.router2_checked", "on-path-of-N-2", 15);
     require_min(ctx, offset, "payout.capped", "capped", 15);
     require_min(ctx, offset, "payout.capped", "uncapped", 15);
     require_min(ctx, offset, "payout.stray_fee_tx", "Invalid", 15);
